@@ -65,6 +65,23 @@ def _selects_from(v: ast.AST, der: set[str]) -> bool:
     return False
 
 
+def _fresh_list(e: Optional[ast.AST]) -> bool:
+    """Expression that creates a new list object."""
+    if e is None:
+        return False
+    if isinstance(e, (ast.List, ast.ListComp)):
+        return True
+    if isinstance(e, ast.Call) and call_name(e) in ("list", "sorted") and not isinstance(e.func, ast.Attribute):
+        return True
+    if isinstance(e, ast.Call) and call_name(e) == "copy":
+        return True
+    if isinstance(e, ast.Subscript) and isinstance(e.slice, ast.Slice):
+        return True
+    if isinstance(e, ast.BinOp) and isinstance(e.op, ast.Add):
+        return True
+    return False
+
+
 def winner_loop(fn: FunctionInfo) -> Optional[ast.For]:
     for y in walk_local(fn.node):
         if isinstance(y, ast.Yield):
@@ -187,10 +204,23 @@ def lexicase(ctx: Ctx, fn: FunctionInfo) -> None:
         n2 += 1
         use = next(c for c in pops if c.func.value.id == nm)
         d = last_def_before(loop.body, nm, top_in(loop.body, use))
-        ok = d is not None and any(isinstance(x, ast.Call) and call_name(x) == "shuffle" for x in ast.walk(d.value))
-        ctx.ob("C17.R2", fn, use, f"case order '{nm}' is shuffled afresh inside each winner's iteration", ok,
-               "" if ok else f"'{nm}' is consumed with pop() but not re-created by a shuffle inside the per-winner "
-                             f"loop: from the second winner on the case list is exhausted and no filtering happens")
+        sh = [x for x in ast.walk(d.value) if isinstance(x, ast.Call) and call_name(x) == "shuffle"] if d is not None else []
+        ok = bool(sh)
+        why = f"'{nm}' is consumed with pop() but not re-created by a shuffle inside the per-winner loop: from the " \
+              f"second winner on the case list is exhausted and no filtering happens"
+        if ok:
+            # shuffle works in place and returns its argument: the list it is given must be created in this iteration
+            arg = sh[0].args[0] if sh[0].args else None
+            fresh = _fresh_list(arg)
+            if not fresh and isinstance(arg, ast.Name):
+                d2 = last_def_before(loop.body, arg.id, top_in(loop.body, d))
+                fresh = d2 is not None and _fresh_list(d2.value)
+            if not fresh:
+                ok = False
+                why = f"shuffle() permutes '{norm(arg)}' in place and returns the same list; that list is created " \
+                      f"outside the per-winner loop, so pop() drains it across winners and later winners are not filtered"
+        ctx.ob("C17.R2", fn, use, f"case order '{nm}' is a fresh shuffled list inside each winner's iteration", ok,
+               "" if ok else why)
     if not case_lists:
         for l in inner_for:
             d_in = last_def_before(loop.body, l.iter.id, top_in(loop.body, l))
